@@ -67,6 +67,8 @@ def run_program(pr):
 
     def mk(loop):
         c = SimCluster(loop, n_brokers=pr.get("brokers", 1))
+        for k_, (lo_, hi_) in (pr.get("api_ranges") or {}).items():
+            c.api_ranges[int(k_)] = (lo_, hi_)
         c.add_topic("t", 2)
         c.latency = lambda node, api: 0.001
 
